@@ -572,15 +572,30 @@ public:
       abs_dom_t callee_ctx_inv(this->m_inv);
       // --- matching formal and actual parameters
       // XXX: propagating down
+      // The formals receive the actuals simultaneously. Caller and
+      // callee can share variable names (e.g., g(a,b) called as
+      // g(b,a)), so first copy every actual into a fresh variable
+      // and then the fresh variables into the formals.
       unsigned i = 0;
       const std::vector<variable_t> &inputs = summ.get_inputs();
+      std::vector<variable_t> tmp_inputs;
+      tmp_inputs.reserve(inputs.size());
       for (const variable_t &p : inputs) {
         const variable_t &a = cs.get_arg_name(i);
-        if (!(a == p)) {
-          inter_transformer_helpers<abs_dom_t>::unify(callee_ctx_inv, p, a);
-        }
+        auto &vfac = const_cast<typename abs_dom_t::varname_t *>(&(p.name()))
+                         ->get_var_factory();
+        variable_t tmp(vfac.get(), p.get_type());
+        inter_transformer_helpers<abs_dom_t>::unify(callee_ctx_inv, tmp, a);
+        tmp_inputs.push_back(tmp);
         ++i;
       }
+      i = 0;
+      for (const variable_t &p : inputs) {
+        inter_transformer_helpers<abs_dom_t>::unify(callee_ctx_inv, p,
+                                                    tmp_inputs[i]);
+        ++i;
+      }
+      callee_ctx_inv.forget(tmp_inputs);
 
       // --- project only onto formal parameters
       callee_ctx_inv.project(inputs);
